@@ -288,7 +288,7 @@ SPEC = {
         reduced=["watch", "embed", "shorts", "channel", "user", "c", VID, "Name", "@handle"],
         queries=["", "v=" + VID, "v=bad", "v=" + VID + "&list=PL1", "list=PL1", "v=" + VID + "&list=PL%26x%3D1", "list=PL%2523a&v=" + VID, "v=" + VID + "&list=PL%2526", "next=%2Fwatch%3Fv%3D" + VID, "next=%2Fwatch%3Fv%3Dx", "v=" + VID + "xyz",
                  "q=http%3A%2F%2Fx.org", "feature=share&v=" + VID, "next%3D%252Fwatch%253Fv%253Dzz", "v=", "V=" + VID,
-                 "v", "feature=share&v", "v&list=PL1", "v&v=" + VID, "list", "list&v=" + VID, "&&v=" + VID + "&"],
+                 "v=" + VID + "&list=", "list=", "list=&v=" + VID, "v", "feature=share&v", "v&list=PL1", "v&v=" + VID, "list", "list&v=" + VID, "&&v=" + VID + "&"],
         fragments=["", "/watch?v=" + VID, "%2Fwatch%3Fv%3D" + VID, "!/x", "/watch?v=bad"],
         options=[{"fix_common_mistakes": True}, {"fix_common_mistakes": False}],
     ),
